@@ -16,14 +16,17 @@ import gen
 import gr2
 import harness
 
-THEOREMS = ["Grc.Code.check_sound"]
+THEOREMS = ["Grc.Code.check_sound",
+            "Grc.Wr.binarySearchConstants_spec", "Grc.Wr.binarySearchConstants_eq_searchConsts", "Grc.Wr.beU16_write16", "Grc.Wr.beU32_write32",
+            "Grc.WritersGen.search_constants_text_as_modelled", "Grc.WritersGen.write16_text_as_modelled", "Grc.WritersGen.write32_text_as_modelled",
+            "Grc.WritersGen.write_members_as_modelled"]
 
 OPTS_QUICK = [[], ["-v2"], ["-v3"], ["-v4"], ["-v5"], ["-c"], ["-p"], ["-offsets"], ["-g"], ["-n300"], ["-v3", "-p"], ["-c", "-p"]]
 
 
 def run(tier, seed, replay=None):
     rep = common.Report("C03", tier, seed)
-    common.lean_gate(rep, THEOREMS, uses_tables=True)
+    common.lean_gate(rep, THEOREMS, uses_tables=True, uses_writers=True)
     build = common.build_repo("rel")
     work = common.new_workdir("c03")
     n = 60 if tier == "quick" else 400
